@@ -11,7 +11,7 @@ COMMON_TRUSTED = [
 LOCKX = [dict(exe="lockx", args=["/repo", "/verif/lean/Avfs/Generated/Locks.lean"])]
 CLEAN = "mkdir,mkdirall,writefile,readfile,stat,lstat,readdir,chmod,truncate,open,fileop,chtimes,chown"
 RACE_CFG = [("memidm", "", 2), ("memfs", CLEAN, 3), ("memfs", "mkdir,remove", 2), ("orefafs", "mkdir,remove", 2), ("memfs", "link,remove", 2),
-            ("orefafs", "rename", 2), ("memfs", "remove,writefile,stat", 2), ("orefafs", "remove,writefile,stat", 2)]
+            ("memfs", "remove,writefile,stat", 2), ("orefafs", "remove,writefile,stat", 2)]
 CONC_TRUST = ["translator harness/cmd/lockx (go/ast; intra-procedural must-held lockset: sequential flow, intersection at joins, defers; aliases through := and type assertions; fails closed on constructs it does not know); that the extracted facts over-approximate the real accesses is trusted",
               "Go memory model DRF-SC (reasoning at lock granularity)", "the race detector and free-running schedules are a search engine only"]
 FACTX = [dict(exe="factx", args=["/repo", "/verif/lean/Avfs/Generated/Wrap.lean"])]
@@ -45,9 +45,10 @@ PROPS = {
         translators=LOCKX,
         parts=[],
         race=RACE_CFG,
-        trusted=CONC_TRUST,
-        assumptions=["proved part: operations that are one critical section (OrefaFS Mkdir/MkdirAll/Remove/RemoveAll, all MemIdm operations but AddUser)"],
-        not_yet_proved=["linearizability of MemFS's lock-free walk + re-validation (exclusive creates: one winner)", "deterministic schedule exploration (cmd/sched) is not built: counter-schedules of the ledger are reproduced by free-running stress only"],
+        lin=[("memfs", "proved", 30000), ("orefafs", "proved", 15000), ("memfs", "known", 6000), ("orefafs", "known", 3000), ("memfs", "deadlock", 15000)],
+        trusted=CONC_TRUST + ["two-phase model (Avfs/Conc/Lin.lean, LinDir.lean): the walk is ONE atomic look at the parent's entry (searchNode reads it under the parent's read lock), the commit is atomic (it runs under parent.mu.Lock(), and every access to the children map happens under that lock: C08_discipline_sites); the shape of the Go functions (walk, one commit lock, look-up under the lock before every mutation, nothing captured by the walk used afterwards) is extracted by lockx on every run and decided by the kernel (C06_commit_fresh_memfs, C06_stale_sites); that the commit of the MODEL (dspec) is what the Go commit computes is carried by the sequential correspondence of C01/C05 and by the linearizability search, not by a theorem"],
+        assumptions=["proved part: (1) operations that are one critical section (OrefaFS Mkdir/MkdirAll/Remove/RemoveAll, all MemIdm operations but AddUser); (2) MemFS Mkdir / OpenFile(O_CREATE|O_EXCL) / Remove on leaf names of directories that no concurrent call removes or renames, callers whose permissions do not change during the run"],
+        not_yet_proved=["MemFS Link / Symlink / Rename / RemoveAll / MkdirAll (commits rely on the unlocked walk: recorded findings)", "calls below a directory that a concurrent call removes or renames (no dead-directory mark in MemFS: recorded finding)", "CreateTemp/MkdirTemp name uniqueness (follows from exclusive create; not stated separately)", "deterministic schedule exploration is not built (no scheduler hook in the source): counter-schedules are found by free-running search only"],
     ),
     "C08": dict(
         props_files=["Avfs/Props/C08.lean"],
@@ -61,6 +62,7 @@ PROPS = {
     "C07": dict(
         translators=LOCKX,
         race=[("memidm", "", 2), ("memfs", CLEAN, 2), ("memfs", "mkdir,remove", 2), ("orefafs", "mkdir,remove", 2)],
+        lin=[("memfs", "deadlock", 25000)],
         props_files=["Avfs/Props/C07.lean"],
         parts=[dict(name="memfs"), dict(name="memfs-files"), dict(name="path", tags="verif,avfs_setostype")],
         trusted=MODEL_TRUST,
